@@ -215,7 +215,18 @@ func (svr *Service) Run(ctx context.Context) error {
 
 func (svr *Service) keepControllerWorking() {
 	verifhook.At("client.keepControllerWorking.enter")
-	<-svr.ctl.Done()
+	// svr.ctl is cleared by stop() under ctlMu when the service is cancelled; read it under the
+	// lock and tolerate nil instead of dereferencing the field directly.
+	getCtl := func() *Control {
+		svr.ctlMu.RLock()
+		defer svr.ctlMu.RUnlock()
+		return svr.ctl
+	}
+	ctl := getCtl()
+	if ctl == nil {
+		return
+	}
+	<-ctl.Done()
 
 	// There is a situation where the login is successful but due to certain reasons,
 	// the control immediately exits. It is necessary to limit the frequency of reconnection in this case.
@@ -225,8 +236,8 @@ func (svr *Service) keepControllerWorking() {
 		// loopLoginUntilSuccess is another layer of loop that will continuously attempt to
 		// login to the server until successful.
 		svr.loopLoginUntilSuccess(20*time.Second, false)
-		if svr.ctl != nil {
-			<-svr.ctl.Done()
+		if ctl := getCtl(); ctl != nil {
+			<-ctl.Done()
 			return false, errors.New("control is closed and try another loop")
 		}
 		// If the control is nil, it means that the login failed and the service is also closed.
